@@ -253,6 +253,38 @@ def check_insert_after_probe(chk, prog):
     chk.floor(R, n, 5, "hash-entry creation sites in merge-bearing insert functions")
 
 
+def check_scratch_cleared(chk, prog):
+    R = chk.rule("R-SCRATCH-CLEARED", "the merge output buffer is cleared between two merge calls: on every path from a merge call site back to a merge call site (next row) "
+                 "Vec::clear is called on the buffer (the merge callback appends to it with extend_from_slice)")
+    n = 0
+    for f, c in merge_sites(prog):
+        out_op = _out_operand(f, c)
+        if out_op is None:
+            continue
+        out_atoms = f.origins(out_op)
+        if f.kind == "closure" and out_atoms and all(a[0] == "param" and a[1] >= 2 for a in out_atoms):
+            continue  # forwarder
+        n += 1
+        clears = {x.bb for x in f.calls if x.p.rsplit("::", 1)[-1] == "clear" and x.args and (f.origins(x.args[0]) & out_atoms)}
+        sites = {x.bb for g, x in merge_sites(prog) if g is f}
+        # can we go from this site to any merge site without passing a clear?
+        seen = set()
+        stack = list(f.succ[c.bb])
+        leak = False
+        while stack:
+            x = stack.pop()
+            if x in seen or x in clears:
+                continue
+            seen.add(x)
+            if x in sites:
+                leak = True
+                break
+            stack.extend(f.succ[x])
+        chk.judge(bool(clears) and not leak, R, f"{role_key(f)}:merge-site#{'closure' if f.kind == 'closure' else 'fn'}:out-buffer-cleared",
+                  "out buffer cleared before the next merge", "the merge output buffer can reach the next merge call uncleared: the next merged row is appended to the previous one", c.loc)
+    chk.floor(R, n, 4, "merge sites with a local/owned out buffer")
+
+
 def check_merge_args(chk, prog):
     R = chk.rule("R-MERGE-ARGS", "merge functions are called as merge(current row from the table, incoming row): "
                  "the 'current' argument originates from row storage reached through the hash entry, the 'incoming' one from the pending buffer")
@@ -444,6 +476,7 @@ def run(chk, prog, tier):
     check_merge_stored(chk, prog)
     check_insert_after_probe(chk, prog)
     check_change_reported(chk, prog)
+    check_scratch_cleared(chk, prog)
     check_merge_args(chk, prog)
     check_merge_callback(chk, prog)
     check_nomerge(chk, prog)
